@@ -161,7 +161,7 @@ def gauss2d(yy, xx, x0, y0, amp, sx, sy, theta):
 
 
 def make_scene(rng, *, flavour='general', margin=MARGIN, integer=False, nonneg=False,
-               nsrc=None, core=None, max_sigma=2.6, nonfinite=False, round_sources=False):
+               nsrc=None, core=None, max_sigma=2.6, nonfinite=False, round_sources=False, hostile=False):
     """Random asymmetric scene.
 
     flavour: 'general' (3-8 elliptical Gaussians, some close pairs), 'stars' (round-ish, compact,
@@ -253,6 +253,9 @@ def make_scene(rng, *, flavour='general', margin=MARGIN, integer=False, nonneg=F
         mask |= rng.random((ny, nx)) < 0.006
         by, bx = int(rng.integers(margin, ny - margin - 3)), int(rng.integers(margin, nx - margin - 3))
         mask[by:by + int(rng.integers(1, 4)), bx:bx + int(rng.integers(1, 4))] = True
+    hostile_kinds = []
+    if hostile:
+        segm, mask, hostile_kinds = add_hostile_segments(rng, data, model, segm, mask, srcs, margin)
     conv = ndi.gaussian_filter(data, 1.1, mode='constant', cval=0.0, truncate=3.0)
     if integer:
         conv = np.rint(conv)
@@ -272,7 +275,7 @@ def make_scene(rng, *, flavour='general', margin=MARGIN, integer=False, nonneg=F
         mask[by[::2], bx[::2]] = True
     scene = {
         'data': Frame(data), 'error': Frame(error), 'mask': Frame(mask, False), 'bkg': Frame(bkg),
-        'segm': Frame(segm), 'conv': Frame(conv), 'data2': Frame(data2), 'nonfinite': nbad,
+        'segm': Frame(segm), 'conv': Frame(conv), 'data2': Frame(data2), 'nonfinite': nbad, 'hostile': hostile_kinds,
         # data on top of the background map over the whole frame (no zero margin): Background2D,
         # detect_threshold, calc_total_error (C15 only; never used by C03)
         'bdata': Frame(np.maximum(np.where(inside, data, (np.rint(noise * 8.0) if integer else noise) + offset) + bkg,
@@ -287,6 +290,107 @@ def make_scene(rng, *, flavour='general', margin=MARGIN, integer=False, nonneg=F
         'opts': {},
     }
     return scene
+
+
+def add_hostile_segments(rng, data, model, segm, mask, srcs, margin):
+    """Segments and masks that drive SourceCatalog / data_properties into their documented fallback branches:
+
+    tiny      1-5 pixel segments (single pixel, pairs, L / diagonal shapes) on a source flank or on the noise:
+              quadratic fit has < 6 points -> barycentre fallback; degenerate second moments; Kron radius below
+              the minimum circular radius
+    corner    a block on the flank of a source whose maximum sits at the corner / border of the segment
+    ragged    a sparse (50 %) random subset of a 5x5 .. 6x7 box of faint pixels
+    peakmask  a 2x3 + 1 block of masked pixels right next to the peak of a source (5 of the 9 pixels of the
+              3x3 fit box masked)
+    allmasked a small segment that lies entirely under the mask (fully masked source -> NaN row)
+
+    New segments never overlap existing labels; they get the next free labels. Returns (segm, mask, kinds)."""
+    ny, nx = data.shape
+    segm = segm.copy()
+    mask = mask.copy()
+    kinds = []
+    nextlab = int(segm.max()) + 1
+
+    def free(sel):
+        return sel.any() and not segm[sel].any()
+
+    def place(shape_mask, y0, x0, kind):
+        nonlocal nextlab
+        h, w = shape_mask.shape
+        if y0 < margin or x0 < margin or y0 + h > ny - margin or x0 + w > nx - margin:
+            return False
+        sel = np.zeros((ny, nx), bool)
+        sel[y0:y0 + h, x0:x0 + w] = shape_mask
+        # keep one pixel of clearance to other labels so that the new segment stays its own component
+        grown = ndi.binary_dilation(sel, structure=np.ones((3, 3)))
+        if not free(grown):
+            return False
+        segm[sel] = nextlab
+        nextlab += 1
+        kinds.append(kind)
+        return True
+
+    tiny_shapes = [np.ones((1, 1), bool), np.ones((1, 2), bool), np.ones((2, 1), bool),
+                   np.array([[1, 0], [1, 1]], bool), np.array([[1, 0], [0, 1]], bool),
+                   np.array([[1, 1, 1]], bool), np.array([[1, 1], [1, 1]], bool),
+                   np.array([[0, 1, 0], [1, 1, 1], [0, 1, 0]], bool), np.array([[1, 1, 0], [0, 1, 1]], bool)]
+    wanted = list(rng.permutation(['tiny', 'tiny', 'tiny', 'corner', 'ragged', 'peakmask', 'allmasked']))
+    for kind in wanted[:int(rng.integers(3, 8))]:
+        for _ in range(30):
+            if kind == 'tiny':
+                sh = tiny_shapes[int(rng.integers(0, len(tiny_shapes)))]
+                if srcs and rng.random() < 0.6:
+                    j = int(rng.integers(0, len(srcs)))
+                    ang, rad = rng.uniform(0, 2 * np.pi), rng.uniform(4.0, 9.0)
+                    y0, x0 = int(srcs[j][1] + rad * np.sin(ang)), int(srcs[j][0] + rad * np.cos(ang))
+                else:
+                    y0, x0 = int(rng.integers(margin, ny - margin)), int(rng.integers(margin, nx - margin))
+                if place(sh, y0, x0, 'tiny'):
+                    break
+            elif kind == 'corner' and srcs:
+                # block just outside the existing segment of a source, towards one corner direction: its brightest
+                # pixel is the corner nearest to the source
+                j = int(rng.integers(0, len(srcs)))
+                h, w = int(rng.integers(2, 5)), int(rng.integers(2, 5))
+                sy, sx = int(rng.choice([-1, 1])), int(rng.choice([-1, 1]))
+                d = int(rng.integers(3, 8))
+                y0 = int(srcs[j][1]) + (d if sy > 0 else -d - h + 1)
+                x0 = int(srcs[j][0]) + (d if sx > 0 else -d - w + 1)
+                if place(np.ones((h, w), bool), y0, x0, 'corner'):
+                    break
+            elif kind == 'ragged':
+                h, w = int(rng.integers(5, 7)), int(rng.integers(5, 8))
+                sh = rng.random((h, w)) < 0.5
+                if sh.sum() < 3:
+                    continue
+                y0, x0 = int(rng.integers(margin, ny - margin)), int(rng.integers(margin, nx - margin))
+                if place(sh, y0, x0, 'ragged'):
+                    break
+            elif kind == 'peakmask' and srcs:
+                j = int(rng.integers(0, len(srcs)))
+                py, px = int(round(srcs[j][1])), int(round(srcs[j][0]))
+                # true peak of the noisy data near the source centre
+                win = data[py - 1:py + 2, px - 1:px + 2]
+                if win.shape != (3, 3) or not np.isfinite(win).all():
+                    continue
+                oy, ox = np.unravel_index(np.argmax(win), win.shape)
+                py, px = py - 1 + int(oy), px - 1 + int(ox)
+                if rng.random() < 0.5:
+                    mask[py - 1:py + 1, px + 1] = True
+                    mask[py + 1, px - 1:px + 2] = True
+                else:
+                    mask[py + 1, px - 1:px + 1] = True
+                    mask[py - 1:py + 2, px - 1] = True
+                    mask[py - 1, px] = True
+                kinds.append('peakmask')
+                break
+            elif kind == 'allmasked':
+                h, w = int(rng.integers(1, 4)), int(rng.integers(1, 4))
+                y0, x0 = int(rng.integers(margin, ny - margin)), int(rng.integers(margin, nx - margin))
+                if place(np.ones((h, w), bool), y0, x0, 'allmasked'):
+                    mask[y0:y0 + h, x0:x0 + w] = True
+                    break
+    return segm, mask, kinds
 
 
 def scene_digest_arrays(scene):
